@@ -286,10 +286,11 @@ def build(case):
 
 
 def own_dt(tg, unit):
-    """step lengths in main time units from the time points of the grid (not from Timegrid.dt)"""
-    tp = list(tg.timepoints) + [pd.Timestamp(tg.end)]
+    """step lengths in main time units from the points of the grid (not from Timegrid.dt): the grid points are the pandas range
+    from start to end; its last point closes the last step (with a clock change inside the horizon it may lie before `end`)"""
+    pts = pd.date_range(start=tg.start, end=tg.end, freq=tg.freq, tz=tg.tz)
     one = pd.Timedelta(1, unit)
-    return [float((tp[i + 1] - tp[i]) / one) for i in range(len(tp) - 1)]
+    return [float((pts[i + 1] - pts[i]) / one) for i in range(len(pts) - 1)]
 
 
 def block_ends(tg_fresh, args, sub=None):
